@@ -6,6 +6,7 @@ Only property theorems and non-vacuity examples live here; helper lemmas are in
 import FDAProofs.Lemmas.Quadrature
 import FDAProofs.Lemmas.Simpson
 import FDAModel.Geometry
+import FDAModel.Generated.QuadWeights
 import Mathlib.Algebra.Order.BigOperators.Group.Finset
 
 namespace C08
@@ -444,5 +445,87 @@ theorem simpsonW_exact_cubic (a h c0 c1 c2 c3 : ℚ) (k : ℕ) (hk : 1 ≤ k) :
 /-- Non-vacuity / sanity: ∫₀² x³ dx = 4 with three nodes. -/
 example : ∑ j ∈ range 3, simpsonW 3 (fun i => (i : ℚ)) j * ((j : ℚ) ^ 3) = 4 := by
   norm_num [Finset.sum_range_succ, simpsonW]
+
+/-! ### The quadrature weights *as the source has them now*
+
+`FDAModel/Generated/QuadWeights.lean` is regenerated from `FDApy/misc/utils.py` `_integration_weights` on every run
+(syntax mapped one to one onto the NumPy combinators of `FDAModel/Core/NpVec.lean`).  The next two theorems tie the
+source to the definitions every theorem above is about; the corollaries restate the headline facts for the source's
+own arrays. -/
+
+/-- Closes what `simp` leaves of an entry-wise comparison (nothing, or a ring identity over ℚ): written so that
+harmless variants of the source (`/ 2` for `0.5 *`, `x[2:]` for `x[2:len(x)]`, `x[-1]` for `x[len(x)-1]`) re-prove. -/
+macro "np_close" : tactic => `(tactic| first | done | ring | (ring_nf; done) | (field_simp; ring))
+
+set_option linter.unusedSimpArgs false in
+open FDA.Np FDA.Generated in
+/-- For every grid with `n ≥ 2` points the `"trapz"` branch of the source builds, without any shape error, an array
+of `n` entries which are the model's `trapzW`. -/
+theorem trapzW_src_eq_model (n : ℕ) (x : ℕ → ℚ) (hn : 2 ≤ n) :
+    (trapzWSrc n x).ok = true ∧ (trapzWSrc n x).len = n ∧
+      ∀ j, j < n → (trapzWSrc n x).get j = trapzW n x j := by
+  obtain ⟨m, rfl⟩ : ∃ m, n = m + 2 := ⟨n - 2, by omega⟩
+  refine ⟨?_, ?_, ?_⟩
+  · simp [trapzWSrc, smul, divc, concat, append, single, sub, slice]
+  · simp [trapzWSrc, smul, divc, concat, append, single, sub, slice] <;> omega
+  · intro j hj
+    rcases j with _ | k
+    · rw [FDA.trapzW_first]
+      simp [trapzWSrc, smul, divc, concat, append, single, sub, slice] <;> np_close
+    · rcases Nat.lt_or_ge k m with hk | hk
+      · have h4 : 2 + k = k + 2 := by omega
+        rw [FDA.trapzW_mid m k x hk]
+        simp [trapzWSrc, smul, divc, concat, append, single, sub, slice, hk, h4] <;> np_close
+      · obtain rfl : k = m := by omega
+        rw [FDA.trapzW_last]
+        simp [trapzWSrc, smul, divc, concat, append, single, sub, slice] <;> np_close
+
+set_option linter.unusedSimpArgs false in
+open FDA.Np FDA.Generated in
+/-- Same for the `"simpson"` branch and the model's `simpsonW`. -/
+theorem simpsonW_src_eq_model (n : ℕ) (x : ℕ → ℚ) (hn : 2 ≤ n) :
+    (simpsonWSrc n x).ok = true ∧ (simpsonWSrc n x).len = n ∧
+      ∀ j, j < n → (simpsonWSrc n x).get j = simpsonW n x j := by
+  obtain ⟨m, rfl⟩ : ∃ m, n = m + 2 := ⟨n - 2, by omega⟩
+  refine ⟨?_, ?_, ?_⟩
+  · simp [simpsonWSrc, smul, divc, concat, append, single, sub, slice, enumMap]
+  · simp [simpsonWSrc, smul, divc, concat, append, single, sub, slice, enumMap] <;> omega
+  · intro j hj
+    simp only [simpsonWSrc, smul, divc, concat, append, single, sub, slice, enumMap, simpsonW]
+    rcases j with _ | k
+    · simp <;> np_close
+    · rcases Nat.lt_or_ge k m with hk | hk
+      · have h1 : ¬ (k + 1 = m + 2 - 1) := by omega
+        have h4 : 1 + k = k + 1 := by omega
+        have h5 : k ≠ m := by omega
+        by_cases hp : k % 2 = 0 <;> simp [hk, h1, h4, h5, hp] <;> np_close
+      · obtain rfl : k = m := by omega
+        simp <;> np_close
+
+/-- **`np.trapz` agrees with the source's own weights**: `Σ_j w_j y_j` with the array the `"trapz"` branch builds
+is the trapezoid integral, on every grid with at least two points. -/
+theorem trapz_eq_source_weights (n : ℕ) (t y : ℕ → ℚ) (hn : 2 ≤ n) :
+    trapz n t y = ∑ j ∈ range (FDA.Generated.trapzWSrc n t).len, (FDA.Generated.trapzWSrc n t).get j * y j := by
+  obtain ⟨_, hl, hg⟩ := trapzW_src_eq_model n t hn
+  rw [hl, trapz_eq_weights n t y hn]
+  exact Finset.sum_congr rfl fun j hj => by rw [hg j (mem_range.mp hj)]
+
+/-- **The source's Simpson weights integrate cubics exactly** on a uniform grid with an odd number of points. -/
+theorem source_simpson_exact_cubic (a h c0 c1 c2 c3 : ℚ) (k : ℕ) (hk : 1 ≤ k) :
+    let t : ℕ → ℚ := fun i => a + i * h
+    let f : ℚ → ℚ := fun x => c0 + c1 * x + c2 * x ^ 2 + c3 * x ^ 3
+    let F : ℚ → ℚ := fun x => c0 * x + c1 * x ^ 2 / 2 + c2 * x ^ 3 / 3 + c3 * x ^ 4 / 4
+    ∑ j ∈ range (2 * k + 1), (FDA.Generated.simpsonWSrc (2 * k + 1) t).get j * f (t j) = F (t (2 * k)) - F (t 0) := by
+  intro t f F
+  obtain ⟨_, _, hg⟩ := simpsonW_src_eq_model (2 * k + 1) t (by omega)
+  rw [← simpsonW_exact_cubic a h c0 c1 c2 c3 k hk]
+  exact Finset.sum_congr rfl fun j hj => by rw [hg j (mem_range.mp hj)]
+
+/-- Non-vacuity: the doc-string example of the source, `_integration_weights([1,2,3,4,5])`, both rules. -/
+example : (List.range 5).map (FDA.Generated.trapzWSrc 5 (fun i => (i : ℚ) + 1)).get = [1/2, 1, 1, 1, 1/2] ∧
+    (List.range 5).map (FDA.Generated.simpsonWSrc 5 (fun i => (i : ℚ) + 1)).get = [1/3, 4/3, 2/3, 4/3, 1/3] := by
+  constructor <;>
+    norm_num [List.range, List.range.loop, FDA.Generated.trapzWSrc, FDA.Generated.simpsonWSrc, FDA.Np.smul, FDA.Np.divc,
+      FDA.Np.concat, FDA.Np.append, FDA.Np.single, FDA.Np.sub, FDA.Np.slice, FDA.Np.enumMap]
 
 end C08
